@@ -145,6 +145,9 @@ def run(repo, rep):
     rep.clause("C18-n", "numbers are converted by their own type (no float detour that truncates integer options)")
     rep.clause("C18-p", "the port names the reader admits for axi0_port / axi1_port are the names OPTIONS.md documents (the admitted collection is resolved to enum members)")
     rep.clause("C18-q", "each selection chain (section found / built-in default / no file / unknown section) tests and reports the selection its section name was built from")
+    rep.clause("C18-t", "several configuration files are read in command-line order (no ordering or de-duplication of the list)")
+    rep.clause("C18-u", "the value converters of the configuration reader return the conversion of the given text or raise; no constant stands in for an illegal value")
+    rule_round11(repo, rep)
     rule_round10(repo, rep)
     rule_round9(repo, rep)
     rep.clause("C18-o", "bundled system configurations: clock x port width x clock scale equals the bandwidth documented above the section")
@@ -1098,3 +1101,38 @@ def rule_round10(repo, rep):
                                           f"the stored selection is `{str(norm(st.value))[:60]}`: a legal section name (e.g. 'Board_rev1.1') is looked up under another name - rejected, or resolved to an unrelated section")
     if n < 2:
         raise AnalysisError(f"system_config / memory_mode stores: {n} found")
+
+
+def rule_round11(repo, rep):
+    """(t) several --config files are read as a group in command-line order (a later file wins for a repeated option): the list handed to
+    the architecture is built by walking `args.config` in order; no ordering / de-duplicating call touches it.
+    (u) the value converters of the configuration reader turn the *given* text into a value or raise ConfigOptionError: every return of
+    _to_mem_port is the member named by its argument, every return of _to_number the conversion of its argument - a constant return
+    silently replaces an illegal (e.g. empty) value and, because it is a value, beats the inherited one."""
+    vm = repo.mod("vela")
+    fn = vm.func("main")
+    site = "ethosu/vela/vela.py:main"
+    asg = [st for st in ast.walk(fn) if isinstance(st, ast.Assign) and str(norm(st.targets[0])) == "config_files"]
+    if len(asg) != 1:
+        raise AnalysisError(f"vela.main: {len(asg)} assignments to config_files")
+    v = asg[0].value
+    core = v.body if isinstance(v, ast.IfExp) else v
+    ordering = [c for c in ast.walk(v) if isinstance(c, ast.Call) and (call_name(c) or "").split(".")[-1] in ("sorted", "set", "frozenset", "unique", "reversed", "fromkeys")] + [x for x in ast.walk(v) if isinstance(x, (ast.Set, ast.SetComp))]
+    ok = isinstance(core, ast.ListComp) and len(core.generators) == 1 and str(norm(core.generators[0].iter)) == "args.config" and not ordering
+    rep.check(ok, "C18-t", site, "the configuration files are handed on in command-line order (list built by walking args.config)",
+              f"`{str(norm(v))[:90]}` re-orders or de-duplicates the files: with two files that define the same option the wrong one wins (soc.ini, board_rev2.ini are read as board_rev2.ini, soc.ini)")
+    am = repo.mod("architecture_features")
+    for q, want in (("ArchitectureFeatures._to_mem_port", r"^MemPort\[(\w+)\]$"), ("ArchitectureFeatures._to_number", r"^(\w+)\((\w+)\)$")):
+        f = am.func(q)
+        params = [a.arg for a in f.args.args]
+        rets = [r for r in ast.walk(f) if isinstance(r, ast.Return)]
+        if not rets:
+            raise AnalysisError(f"{q}: no return")
+        for r in rets:
+            t = str(norm(r.value)) if r.value is not None else "None"
+            mm = re.match(want, t)
+            ok = bool(mm) and all(g in params for g in mm.groups())
+            rep.check(ok, "C18-u", f"{AF}:{q}", f"`return {t}` is the conversion of the given value", f"`return {t}` does not depend on the given text: an illegal value is replaced silently instead of raising ConfigOptionError "
+                      "(arena_mem_area= in a child of Dedicated_Sram resolves to Axi0 and beats the inherited Axi1)")
+        raises = [x for x in ast.walk(f) if isinstance(x, ast.Raise)]
+        rep.check(bool(raises), "C18-u", f"{AF}:{q}", "an illegal value raises", "no raise statement")
